@@ -7,9 +7,93 @@ open EV EV.Codec EV.Proofs.CodecTx
 def discount (o : TxOut) : Nat :=
   (o.witness.enc.length - 2) + (if o.value.isConf then 4 * 24 else 0) + (if o.nonce.isConf then 4 * 32 else 0)
 
+theorem encOptProof_length (p : Option Bytes) :
+    (encOptProof p).length = varintSize (Tx.optLen p) + Tx.optLen p := by
+  cases p with
+  | none => simp [encOptProof, Tx.optLen, EV.Proofs.CodecPrim.encBytesVec_length]
+  | some b => simp [encOptProof, Tx.optLen, EV.Proofs.CodecPrim.encBytesVec_length]
+
+theorem surjLen_eq (w : TxOutWitness) : w.surjectionproofLen = Tx.optLen w.surjectionProof := by
+  unfold TxOutWitness.surjectionproofLen Tx.optLen; cases w.surjectionProof <;> rfl
+
+theorem rangeLen_eq (w : TxOutWitness) : w.rangeproofLen = Tx.optLen w.rangeproof := by
+  unfold TxOutWitness.rangeproofLen Tx.optLen; cases w.rangeproof <;> rfl
+
+theorem witness_enc_length (w : TxOutWitness) :
+    w.enc.length = varintSize w.surjectionproofLen + w.surjectionproofLen +
+      varintSize w.rangeproofLen + w.rangeproofLen := by
+  unfold TxOutWitness.enc
+  rw [List.length_append, encOptProof_length, encOptProof_length, surjLen_eq, rangeLen_eq]
+  omega
+
+theorem discountStep_some (w : Nat) (o : TxOut) (h : discount o ≤ w) :
+    Tx.discountStep (some w) o = some (w - discount o) := by
+  unfold discount at *
+  rw [witness_enc_length] at *
+  unfold Tx.discountStep
+  simp only []
+  generalize varintSize o.witness.surjectionproofLen + o.witness.surjectionproofLen +
+    varintSize o.witness.rangeproofLen + o.witness.rangeproofLen = ww at *
+  generalize o.value.isConf = vc at *
+  generalize o.nonce.isConf = nc at *
+  cases vc <;> cases nc <;> simp at h ⊢ <;> omega
+
+theorem fold_discount (outs : List TxOut) (w : Nat) (h : (outs.map discount).sum ≤ w) :
+    outs.foldl Tx.discountStep (some w) = some (w - (outs.map discount).sum) := by
+  induction outs generalizing w with
+  | nil => simp
+  | cons o os ih =>
+    simp only [List.map_cons, List.sum_cons] at h ⊢
+    rw [List.foldl_cons, discountStep_some w o (by omega), ih _ (by omega)]
+    congr 1; omega
+
+theorem sum_map_le {α} (l : List α) (f g : α → Nat) (h : ∀ x ∈ l, f x ≤ g x) :
+    (l.map f).sum ≤ (l.map g).sum := by
+  induction l with
+  | nil => simp
+  | cons a as ih =>
+    simp only [List.map_cons, List.sum_cons]
+    have h1 := h a (by simp)
+    have h2 := ih (fun x hx => h x (by simp [hx]))
+    omega
+
+theorem discount_le_outputScaled (t : Tx) (o : TxOut) (ho : o ∈ t.output) :
+    discount o ≤ Tx.outputScaled 4 t.hasWitness o := by
+  unfold discount Tx.outputScaled
+  rw [witness_enc_length]
+  have hv : (if o.value.isConf then 4 * 24 else 0) ≤ 4 * o.value.encodedLength := by
+    cases o.value <;> simp [Value.isConf, Value.encodedLength]
+  have hn : (if o.nonce.isConf then 4 * 32 else 0) ≤ 4 * o.nonce.encodedLength := by
+    cases o.nonce <;> simp [Nonce.isConf, Nonce.encodedLength]
+  cases hw : t.hasWitness with
+  | true => simp only [if_true]; omega
+  | false =>
+    have he : o.witness.isEmpty = true := by
+      unfold Tx.hasWitness at hw
+      rw [Bool.or_eq_false_iff] at hw
+      have := (List.any_eq_false.mp hw.2) o ho
+      simpa using this
+    unfold TxOutWitness.isEmpty at he
+    rw [Bool.and_eq_true, Option.isNone_iff_eq_none, Option.isNone_iff_eq_none] at he
+    have hs : o.witness.surjectionproofLen = 0 := by
+      unfold TxOutWitness.surjectionproofLen; rw [he.1]
+    have hr : o.witness.rangeproofLen = 0 := by
+      unfold TxOutWitness.rangeproofLen; rw [he.2]
+    rw [hs, hr]
+    have : varintSize 0 = 1 := by decide
+    rw [this]
+    simp only [Bool.false_eq_true, if_false]
+    omega
+
 theorem discount_weight_eq (P : Prims) (t : Tx) (h : t.wf P) :
     (t.output.map discount).sum ≤ t.weight ∧
     t.discountWeight = some (t.weight - (t.output.map discount).sum) := by
-  sorry
+  have _ := h
+  have hle : (t.output.map discount).sum ≤ t.weight := by
+    have h1 := sum_map_le t.output discount (Tx.outputScaled 4 t.hasWitness)
+      (fun o ho => discount_le_outputScaled t o ho)
+    unfold Tx.weight Tx.scaledSize
+    omega
+  exact ⟨hle, fold_discount t.output t.weight hle⟩
 
 end EV.Proofs.Sizes
